@@ -48,6 +48,9 @@ func selectorLabel(sel cue.Selector) string {
 		return sel.Unquoted()
 	case cue.DefinitionLabel:
 		return sel.String()[1:]
+	case cue.HiddenLabel, cue.HiddenDefinitionLabel:
+		// references can point to hidden fields (`a: _hidden`)
+		return strings.TrimLeft(sel.String(), "_#")
 	}
 	// We shouldn't get anything other than non-hidden
 	// fields and definitions because we've not asked the
